@@ -257,6 +257,15 @@ def run(ctx):
         "EFFECT", floor=10,
     )
     _import_time_defaults(ctx, r7, repo)
+    r8 = ctx.rule(
+        "C19.R8",
+        "DEFAULT-AGREEMENT: leaving an option out on the command line means what leaving the argument out of the library call means: "
+        "for every option the contract table forwards to a library parameter that has a default of its own (Workspace.combine join / "
+        "merge_channels, hypotest test_stat / calctype, digest algorithm ...), the option's default -- evaluated statically, class-level "
+        "tables such as `Workspace.valid_joins[0]` included -- equals the library parameter's default",
+        "TABLE", floor=4,
+    )
+    _default_agreement(ctx, r8, repo)
     from . import c19cli
     c19cli.check_infer(ctx, r4, repo)
     c19cli.check_inspect(ctx, r4, repo)
@@ -611,3 +620,72 @@ def _import_time_defaults(ctx, rid, repo):
                 else:
                     ctx.holds(rid, site, f"default {A.short(kw.value, 30)}: a literal / an uncalled callable")
     ctx.extra["click_defaults_seen"] = n
+
+
+def _static_value(repo, m, node):
+    """value of a default expression without running anything: literals, and `Class.attr[<int>]` / `Class.attr` over class-level
+    literal assignments; the sentinel `...` when it cannot be told"""
+    if A.is_const(node):
+        return A.const_value(node)
+    if isinstance(node, ast.Subscript) and isinstance(A.const_value(node.slice), int):
+        base = _static_value(repo, m, node.value)
+        if isinstance(base, (list, tuple)) and -len(base) <= A.const_value(node.slice) < len(base):
+            return base[A.const_value(node.slice)]
+        return ...
+    d = A.dotted(node)
+    if d and "." in d:
+        head, attr = d.rsplit(".", 1)
+        kind, obj = repo.resolve_name(m, head)
+        if kind == "class" and attr in getattr(obj, "attrs", {}):
+            return A.const_value(obj.attrs[attr]) if A.is_const(obj.attrs[attr]) else ...
+    return ...
+
+
+def _default_agreement(ctx, rid, repo):
+    LIB = {"combine": ("src/pyhf/workspace.py", "Workspace.combine"), "hypotest": ("src/pyhf/infer/__init__.py", "hypotest"), "digest": ("src/pyhf/utils.py", "digest"),
+           "prune": ("src/pyhf/workspace.py", "Workspace.prune"), "rename": ("src/pyhf/workspace.py", "Workspace.rename"), "fit": ("src/pyhf/infer/mle.py", "fit"),
+           "model": ("src/pyhf/workspace.py", "Workspace.model"), "sorted": ("src/pyhf/workspace.py", "Workspace.sorted")}
+    for (fn, cname), table in sorted(CONTRACT.items()):
+        try:
+            m = repo.module(CLI + fn)
+        except Exception:  # noqa: BLE001
+            continue
+        f = next((g for q, g in m.funcs.items() if g.node.name == cname), None)
+        if f is None:
+            continue
+        decl = {}
+        for d in getattr(f.node, "decorator_list", []):
+            if isinstance(d, ast.Call) and (A.dotted(d.func) or "").split(".")[-1] in ("option", "argument"):
+                strs = [A.const_value(a) for a in d.args if isinstance(A.const_value(a), str)]
+                kw = {k.arg: k.value for k in d.keywords if k.arg}
+                pname = next((s_.lstrip("-").replace("-", "_") for s_ in strs if s_.startswith("--")), strs[0].replace("-", "_") if strs else None)
+                if pname and "default" in kw:
+                    decl[pname] = (strs, kw["default"], kw)
+        for opt, targets in sorted(table.items()):
+            if opt not in decl:
+                continue
+            strs, dnode, kw = decl[opt]
+            if any((k_ == "multiple" and A.const_value(v_) is True) or (k_ == "is_flag" and A.const_value(v_) is True) for k_, v_ in kw.items()) and A.const_value(dnode) in (None, False):
+                pass
+            for callee, param in targets:
+                if callee not in LIB or param is None:
+                    continue
+                rel, q = LIB[callee]
+                if not repo.has_func(rel, q):
+                    continue
+                lf = repo.func(rel, q)
+                ldef = A.param_defaults(lf.node).get(param)
+                if ldef is None:
+                    continue
+                cli_v, lib_v = _static_value(repo, m, dnode), _static_value(repo, lf.module, ldef)
+                site = f"{m.relpath}::{cname} {'/'.join(strs)} -> {q}({param}=...)"
+                if cli_v is ... or lib_v is ...:
+                    ctx.unrecognised(rid, f, f"default of {'/'.join(strs)}", f"cannot tell statically what `{A.short(dnode, 40)}` / `{A.short(ldef, 40)}` evaluate to")
+                elif cli_v is None or (isinstance(cli_v, (list, tuple, dict)) and not cli_v and not lib_v):
+                    ctx.holds(rid, site, "the option defaults to nothing (None / an empty collection): nothing is forwarded unless given")
+                elif isinstance(cli_v, (list, tuple)) and len(cli_v) == 1 and A.const_value(kw.get("multiple")) is True and cli_v[0] == lib_v:
+                    ctx.holds(rid, site, f"repeatable option defaulting to the single value {lib_v!r}, the library's default")
+                elif cli_v == lib_v:
+                    ctx.holds(rid, site, f"both default to {cli_v!r}")
+                else:
+                    ctx.violated(rid, f, f"default of {'/'.join(strs)}", f"`pyhf {cname}` without {strs[-1]} runs {q} with {param}={cli_v!r}; the library call without that argument uses {lib_v!r}: the command line does not return what the library returns for the same inputs", expected=repr(lib_v), found=f"{A.short(dnode, 40)} = {cli_v!r}", node=dnode)
